@@ -28,6 +28,7 @@ K_PROJ = "C11:polyT-projection-inside-alignment"
 K_MICRO = "C11:microintron-last-exon"
 K_THREAD = "C11:thread-starts-apa-delta"
 K_TIE = "C11:thread-vertex-tie"
+K_CUT = "C11:region-cut-bin-phase"
 
 # ------------------------------------------------------------------------------------------------ printers
 def cev(e):
@@ -531,6 +532,66 @@ def unit_thread(ctx, quick):
     report_strict(ctx, "thread_ends / thread_starts", mism, viol, keyfn=key, what="thread_starts on the mirrored input is not the mirror image of thread_ends")
 
 
+# ---------------------------------------------------------------------------------------------- split_coverage_regions under translation
+PRE_SPLIT = """From IQ.gen Require Import Prims Tables.
+From IQ Require Import Regions RegionsCorr Mirror MirrorRegions.
+Open Scope Z_scope.
+(* case: ((constants, region, read count, coverage_dict), sub-regions) of a cluster, the shift k, and the same of the cluster moved by k *)
+Definition T := ((split_in * outcome (list iv)) * (Z * (split_in * outcome (list iv))))%type.
+Definition check (c:T) := SPLIT_CHECK (fst c) && SPLIT_CHECK (snd (snd c)) &&
+  (let '(_, r, cnt, _) := fst (fst c) in let '(_, r', cnt', _) := fst (snd (snd c)) in iv_eqb r' (sh (fst (snd c)) r) && (cnt =? cnt')).
+(* whenever C11_unsplit_decision_shift_invariant (short region, few reads: EVERY k) or C11_split_regions_shift (k a multiple of the bin) applies,
+   the sub-regions of the moved cluster are the moved sub-regions *)
+Definition applies (c:T) : bool := let '(k0, r, cnt, _) := fst (fst c) in let '(B, ML, MR, _, _, _) := k0 in
+  ((py_interval_len r <? ML) && (cnt <? MR)) || (fst (snd c) mod B =? 0).
+Definition prop (c:T) := negb (applies c) ||
+  outcome_eqb regs_eqb (snd (snd (snd c))) (match snd (fst c) with Ok l => Ok (shl (fst (snd c)) l) | Raises e => Raises e end).
+"""
+
+def unit_split(ctx, quick):
+    """the REAL AlignmentCollector.split_coverage_regions on REAL storages filled from fake alignments, for cluster lengths around
+       MAX_REGION_LEN and read counts around MIN_READS_TO_SPLIT, under shifts by every residue modulo the coverage bin"""
+    from src import alignment_processor as ap
+    from props.c05 import FA, real_consts, cconsts, cout, detect_repaired
+    REAL = real_consts(); B, ML, MR = REAL[0], REAL[1], REAL[2]
+    pre = PRE_SPLIT.replace("SPLIT_CHECK", "split_check" if detect_repaired() else "split_check_prev")
+    rnd = ctx.rnd; cases = []; elsewhere = 0; n_apply = 0
+    def split(alns):
+        st = ap.InMemoryAlignmentStorage()
+        for i, (a, b) in enumerate(alns): st.add_alignment(0, FA(a, b, i))
+        try: regs = [tuple(r) for r in ap.AlignmentCollector.split_coverage_regions(st.region, st)]
+        except Exception: regs = ("raises", 7)
+        return st.region, st.get_read_count(), sorted(st.coverage_dict.items()), regs
+    lengths = [ML - B + 1, ML - B // 2, ML - 2, ML - 1, ML, ML + 1, ML + B + 77, ML + 5 * B]
+    starts = [4 * B, 4 * B + 1, 4 * B + 100, 4 * B + B - 1]
+    counts = [4, MR - 1, MR] if not quick else [4, MR - 1]
+    ks_all = list(range(0, B)) + [B, 2 * B - 1, 2 * B, 3 * B + 37]
+    for ln in lengths:
+        for s0 in (starts if not quick else starts[:3]):
+            for cnt in counts:
+                if cnt > 4 and (ln, s0) not in ((ML - 1, starts[0]), (ML, starts[0]), (ML - 1, starts[2])): continue      # the large clusters only at the threshold
+                # deep part (cnt - 1 spliced alignments from the first base to 260 bases before the end) + one short read in the tail: coverage 1 in the last bin(s)
+                alns = [(s0, s0 + ln - 260)] * (cnt - 1) + [(s0 + ln - 300, s0 + ln)]
+                r0 = split(alns)
+                ks = ks_all if not quick else sorted(set([0, 1, 2, 37, 100, 127, 128, 129, 254, 255, B, 2 * B] + [(-s0) % B, (-s0 - ln) % B, (-s0 - ln + 1) % B, (-s0 - ln - 1) % B] + rnd.sample(range(B), 6)))
+                if cnt > 4: ks = [k for k in ks if k in (0, 1, 100, 255, B)]
+                for k in ks:
+                    rk = split([(a + k, b + k) for a, b in alns])
+                    applies = (ln < ML and cnt < MR) or k % B == 0; n_apply += applies
+                    if not applies and not isinstance(r0[3], tuple) and not isinstance(rk[3], tuple) and rk[3] != [(a + k, b + k) for a, b in r0[3]]: elsewhere += 1
+                    t = lambda r: "((%s, %s, %s, %s), %s)" % (cconsts(REAL), civ(r[0]), cz(r[1]), clist(r[2], civ), cout(r[3], civs))
+                    cases.append(("(%s, (%s, %s))" % (t(r0), cz(k), t(rk)),
+                                  {"cluster_length": ln, "first_base(0-based)": s0, "reads": cnt, "shift": k, "alignments(start,end)": "%d x (%d, %d) + (%d, %d)" % (cnt - 1, s0, s0 + ln - 260, s0 + ln - 300, s0 + ln),
+                                   "sub_regions": r0[3], "sub_regions_of_shifted_cluster": rk[3], "bins_covered": [len(r0[2]), len(rk[2])], "theorem_applies": bool(applies)}))
+    ctx.rule("AlignmentCollector.split_coverage_regions (real function, real InMemoryAlignmentStorage filled from fake alignments, real constants): clusters of length MAX_REGION_LEN + {-255, -128, -2, -1, 0, 1, 333, 1280} "
+             "starting at bin offsets {0, 1, 100, 255}, a one-read tail in the last bin, 4 / MIN_READS_TO_SPLIT-1 / MIN_READS_TO_SPLIT reads; shifted by %s; Coq: model = implementation for the cluster and the shifted cluster, "
+             "and sub-regions(shift k) = shift k (sub-regions) whenever the unsplit theorem (short, few reads: every k) or split_regions_shift (k a multiple of 256) applies; non-trivial = theorem applies" %
+             ("a covering sample of k (bin residues that move the cluster's ends across bin boundaries, 0, 1, 2, 37, 100, 127..129, 254..256, 512, 6 random)" if quick else "every k in 0..255 and 256, 511, 512, 805"))
+    mism, viol = ctx.corr("split_coverage_regions under translation", pre, cases, shard=max(20, len(cases) // 16 + 1), ctype="T", nontrivial=lambda o: o["theorem_applies"])
+    report_strict(ctx, "split_coverage_regions under translation", mism, viol, what="split_coverage_regions of the shifted cluster is not the shifted result although the decision / the cut must not depend on this shift")
+    ctx.notes.append("split_coverage_regions under translation: %d cases, the theorems apply to %d; in %d of the others (long cluster, k not a multiple of the bin) the clean code cuts at another place relative to the reads (recorded, not a failure)" % (len(cases), n_apply, elsewhere))
+
+
 def report_strict(ctx, name, mism, viol, keyfn=None, what=None):
     """like corr_report, but a model/implementation mismatch always breaks the correspondence - also when the same run shows
     (known) specification violations, which would otherwise hide a mutated half behind a known finding"""
@@ -793,12 +854,69 @@ def corner_world(seed):
     return w
 
 
+def threshold_world(ga_end, tail_end):
+    """a locus whose reads span 1025..tail_end next to MAX_REGION_LEN = 32768: 20 spliced reads at its left end, one read over the 30-kb last intron,
+       and one unspliced tail read (the only read in the last bins) over the end of the mono-exonic gene GA (.. ga_end), a 15-base gap and the start
+       of the mono-exonic gene GZ; a separate minus-strand gene further right"""
+    import gen_data
+    rnd = random.Random(5)
+    w = gen_data.World.__new__(gen_data.World)
+    w.rnd = rnd; w.genes = []; w.reads = []; w.truth = {}
+    L = 60000; seq = [rnd.choice("ACGT") for _ in range(L)]; w.chroms = {"chr1": seq}
+    G = [("GL", "+", {"TL1": [(1025, 1400), (2000, 2400), (32700, 33000)], "TL2": [(1025, 1400), (2000, 2400)]}),
+         ("GA", "+", {"TA1": [(32900, ga_end)]}), ("GZ", "+", {"TZ1": [(ga_end + 15, 34500)]}), ("GS", "-", {"TS1": [(40000, 40300), (41000, 41500)]})]
+    for gid, strand, tr in G:
+        pool = sorted(set(e for t in tr.values() for e in t)); iso = {tid: [pool.index(e) for e in t] for tid, t in tr.items()}
+        w.genes.append(dict(id=gid, chr="chr1", strand=strand, pool=pool, isoforms=iso, start=pool[0][0], end=pool[-1][1]))
+        for t in tr.values():
+            if len(t) > 1: w.plant(t, "chr1", strand)
+    w.chroms["chr1"] = "".join(seq)
+    for i in range(20): w.add_read("short_%d" % i, "chr1", [(1025 + i, 1400), (2000, 2380 - i)], "+", polya=False)
+    w.add_read("long_fsm", "chr1", [(1030, 1400), (2000, 2400), (32700, 33000)], "+", polya=False)
+    w.add_read("tail_read", "chr1", [(32990, tail_end)], "+", polya=False)
+    for i in range(5): w.add_read("other_%d" % i, "chr1", [(40010 + i, 40300), (41000, 41400)], "-", polya=False)
+    return w
+
+
+def cut_phase_key(bam, read_id, k):
+    """structural key of a read whose output changes under a shift by k: replay the REAL clustering + split_coverage_regions for the read's
+       cluster at shift 0 and at shift k; the key holds iff the cluster is beyond the splitting thresholds (so that neither
+       C11_unsplit_decision_shift_invariant nor - k not being a multiple of the bin - C11_split_regions_shift applies), the cuts differ after
+       shifting back, and the read lies across a cut under one shift but not under the other (it is then processed in two sub-regions,
+       each with its own gene set, under one shift only)"""
+    import pysam
+    from src import alignment_processor as ap
+    from src.common import interval_len
+    B = ap.AbstractAlignmentStorage.COVERAGE_BIN
+    with pysam.AlignmentFile(bam, "rb") as f: recs = [(a.reference_name, a.reference_start, a.reference_end, a.query_name) for a in f.fetch(until_eof=True) if a.reference_id >= 0 and a.reference_end]
+    mine = [r for r in recs if r[3] == read_id]
+    if not mine or k % B == 0: return None
+    chrom, a0, b0 = mine[0][0], mine[0][1], mine[0][2] - 1
+    class F: pass
+    def clusters(kk):
+        st = ap.InMemoryAlignmentStorage(); out = []; names = []
+        for c, s_, e_, nm in recs:
+            if c != chrom: continue
+            x = F(); x.reference_start = s_ + kk; x.reference_end = e_ + kk
+            if st.alignment_is_not_adjacent(x):
+                out.append((st.region, st.get_read_count(), ap.AlignmentCollector.split_coverage_regions(st.region, st), names)); st.reset(); names = []
+            st.add_alignment(0, x); names.append(nm)
+        out.append((st.region, st.get_read_count(), ap.AlignmentCollector.split_coverage_regions(st.region, st), names))
+        return [c for c in out if read_id in c[3]][0]
+    c0, ck = clusters(0), clusters(k)
+    if interval_len(c0[0]) < ap.AlignmentCollector.MAX_REGION_LEN and c0[1] < ap.AlignmentCollector.MIN_READS_TO_SPLIT: return None
+    cuts0 = set(r[1] for r in c0[2][:-1]); cutsk = set(r[1] - k for r in ck[2][:-1])
+    across = lambda cuts: set(c for c in cuts if a0 <= c < b0)
+    return K_CUT if cuts0 != cutsk and across(cuts0) != across(cutsk) else None        # K_CUT is only a marker here: it never reaches ctx.violation
+
+
 def pipeline_metamorphic(ctx, quick):
     import pipeline as P
     rnd = ctx.rnd
     base = P.scratch("iqc11_")
     try:
-        datasets = []          # (name, inputs, compare_models)
+        datasets = []          # (name, inputs, compare_models[, transforms])
+        ALL = [("shift", 1), ("shift", 37), ("shift", 256), ("shift", 1000), ("mirror",)]
         b = P.bundled(os.path.join(base, "bundled", "orig"))
         datasets.append(("bundled", dict(fasta=b["fasta"], gtf=b["gtf"], bam=b["bam"]), False))
         seeds = [(ctx.seed * 7 + 1, True), (ctx.seed * 7 + 2, False)] + ([] if quick else [(ctx.seed * 7 + i, i % 2 == 0) for i in range(3, 9)])
@@ -807,9 +925,17 @@ def pipeline_metamorphic(ctx, quick):
             datasets.append(("world%d%s" % (sd, "_noise_free" if nf else "_noisy"), dict(fasta=os.path.join(d, "genome.fa"), gtf=os.path.join(d, "annotation.gtf"), bam=os.path.join(d, "reads0.bam")), nf))
         w = corner_world(ctx.seed); d = os.path.join(base, "corner", "orig"); w.write(d)
         datasets.append(("corner_world", dict(fasta=os.path.join(d, "genome.fa"), gtf=os.path.join(d, "annotation.gtf"), bam=os.path.join(d, "reads0.bam")), True))
-        specs = [("shift", 1), ("shift", 37), ("shift", 256), ("shift", 1000), ("mirror",)]
+        # a locus one base below MAX_REGION_LEN (never split, whatever the shift: C11_unsplit_decision_shift_invariant) with neighbouring mono-exonic genes at its tail
+        w = threshold_world(33530, 33791); d = os.path.join(base, "below_threshold", "orig"); w.write(d)
+        datasets.append(("locus_32767bp", dict(fasta=os.path.join(d, "genome.fa"), gtf=os.path.join(d, "annotation.gtf"), bam=os.path.join(d, "reads0.bam")), True,
+                         [("shift", 1), ("shift", 255), ("shift", 256), ("mirror",)]))
+        # the same locus 309 bases longer (split in every phase): the cut lies on the bin grid, so which genes share a sub-region with the tail read depends on k mod 256
+        w = threshold_world(33700, 34100); d = os.path.join(base, "above_threshold", "orig"); w.write(d)
+        datasets.append(("locus_33076bp", dict(fasta=os.path.join(d, "genome.fa"), gtf=os.path.join(d, "annotation.gtf"), bam=os.path.join(d, "reads0.bam")), True,
+                         [("shift", 1), ("shift", 100), ("shift", 255), ("shift", 256), ("shift", 512)]))
+        datasets = [dd if len(dd) == 4 else dd + (ALL,) for dd in datasets]
         inputs = {}; trs = {}
-        for name, inp, cm in datasets:
+        for name, inp, cm, specs in datasets:
             droot = os.path.dirname(os.path.dirname(inp["fasta"]))
             inputs[(name, "orig")] = inp
             for spec in specs:
@@ -835,8 +961,8 @@ def pipeline_metamorphic(ctx, quick):
                     results[job] = out
         t0 = time.time()
         wave([(name, tn, "") for (name, tn) in inputs])
-        n_reads = 0; n_diff = 0; pending = []
-        for name, inp, cm in datasets:
+        n_reads = 0; n_diff = 0; pending = []; outside = []
+        for name, inp, cm, specs in datasets:
             if not results.get((name, "orig", "")): continue
             O = load_run(P, results[(name, "orig", "")], None); n_reads += len(O["reads"])
             olog = load_log(results[(name, "orig", "")] + ".c11log")
@@ -859,6 +985,10 @@ def pipeline_metamorphic(ctx, quick):
                                    model_original=O["mreads"].get(r), model_transformed_back=M["mreads"].get(r))
                         # translation: only the clamp of find_polyt_head (a T head hanging over the start of a chromosome) is a known deviation
                         clamp = any(e[0].startswith(POLYA_EV) and e[0].endswith("_left") and e[1] == "1" for v in (O["reads"].get(r) or []) for e in v[6])     # the clamped value itself
+                        if not clamp and cut_phase_key(inp["bam"], r, tr.k) == K_CUT:
+                            # outside the property's quantifier (split loci are claimed for shifts that are multiples of the bin only): an observation, not a violation
+                            outside.append(dict(dataset=name, shift=tr.k, read=r, original=[(v[2], v[4]) for v in O["reads"].get(r) or []], shifted_back=[(v[2], v[4]) for v in M["reads"].get(r) or []]))
+                            continue
                         ctx.violation(K_CLAMP if clamp else None, "read-level output changes under translation by %d" % tr.k, rep)
                     if (tab_diff or mod_diff) and not diff_reads:
                         ctx.violation(None, "count tables or transcript models change under translation by %d" % tr.k, dict(replay0, count_tables=tab_diff, models=[list(map(str, k)) for k in list(mod_diff)[:6]]))
@@ -909,7 +1039,11 @@ def pipeline_metamorphic(ctx, quick):
                 if ok: ctx.notes.append("%s/%s: count tables / models differ on %d features, %d models; the differences vanish with the pairs %s made symmetric" % (name, tn, sum(map(len, tab_diff.values())), sum(mod_diff.values()), list(union)))
                 else: ctx.violation(None, "count tables or transcript models of the mirrored input are not the mirrored tables / models, beyond what the attributed reads explain", dict(rep, symmetrised=list(union)))
         ctx.notes.append("pipeline: %d runs in %.0f s" % (ctx.cov["pipeline_runs"], time.time() - t0))
-        ctx.rule("pipeline: tests/simple_data and generated worlds (2 chromosomes, annotated genes on both strands; noisy and noise-free reads with polyA tails / polyT heads, truncated and novel exon-skipping reads, "
+        if outside:
+            ctx.notes.append("observation, outside the quantifier (split locus beyond the thresholds, shift not a multiple of the coverage bin; cuts replayed with the real split_coverage_regions differ and the read "
+                             "lies across a cut under one shift only) - not required, not reported: " + json.dumps(outside)[:1500])
+            ctx.sample({"outside_quantifier_split_locus_shift_not_multiple_of_bin": outside[:4]})
+        ctx.rule("pipeline: tests/simple_data, a 32767-bp locus (one base below MAX_REGION_LEN; shifts 1 / 255 / 256 and reflection), the same locus at 33076 bp (split in every phase: shifts 256 / 512 must be exactly equivariant, shifts 1 / 100 / 255 are outside the quantifier and only recorded when the replayed cuts explain the difference) and generated worlds (2 chromosomes, annotated genes on both strands; noisy and noise-free reads with polyA tails / polyT heads, truncated and novel exon-skipping reads, "
                  "reads reaching 8 / 25 bases beyond a transcript end, unspliced reads inside and across terminal introns) through isoquant.py: original, shifted by 1 / 37 / 256 / 1000 and reverse-complemented; "
                  "read_assignments (type, isoform, gene, exons, strand, events with coordinates, additional info), corrected BED, reference count tables and (noise-free data; every shift) transcript models with counts "
                  "compared after transforming back; every difference attributed: unit-level disagreement of a known pair logged for that read + the difference vanishes when exactly those pairs are made symmetric")
@@ -933,6 +1067,7 @@ def run(ctx):
     phase("verifier", unit_verifier, ctx, quick)
     phase("assigner", unit_assigner, ctx, quick)
     phase("thread", unit_thread, ctx, quick)
+    phase("split", unit_split, ctx, quick)
     phase("pipeline", pipeline_metamorphic, ctx, quick)
     ctx.notes.append("phases: " + ", ".join(timing))
     ctx.exhaustive = False
